@@ -480,6 +480,16 @@ def check_headers():
     mbox, _ = _mods()
     vals = [None, "", "plain", "=?utf-8?B?SGVsbG8gV8O2cmxk?=", "=?x-nope?q?caf=E9?=", "=?utf-8?q?a?= b =?iso-8859-1?q?=E9?=", "a\n b", "a\r\n\tb", "=?utf-8?b?w5w=?=\n =?utf-8?b?w7Y=?=",
             "=?utf-8?q?bad=FF?=", "=?ascii?q?=E9?="]
+    # (round 6) folded values, systematically: every pair / triple of segments (plain text, RFC 2047 Q word, B word) folded between
+    # the segments with a blank or a tab, LF or CRLF -- the folding white space between an encoded word and plain text is content
+    segs = ["Quartalsbericht", "=?utf-8?q?M=C3=A4rz?=", "=?utf-8?b?w5xiZXJzaWNodA==?=", "Haus 7"]
+    for a in segs:
+        for b in segs:
+            for ws in (" ", "\t"):
+                for eol in ("\n", "\r\n"):
+                    vals.append(a + eol + ws + b)
+                    vals.append(a + eol + ws + b + eol + ws + segs[0])
+                    vals.append(segs[0] + " " + a + eol + ws + b)
 
     def ref_dhv(v):
         if not v:
